@@ -197,7 +197,7 @@ def late_handshake_specs():
 def stages(tier):
     quick = tier == "quick"
     return [Stage("late-handshake-behind-a-complete-connection", evaluate, specs=late_handshake_specs()),
-            Stage("all-cuts", evaluate, strategy=lambda t: spec_strategy(t), examples=240 if quick else 4000, shrink=False)]
+            Stage("all-cuts", evaluate, strategy=lambda t: spec_strategy(t), examples=480 if quick else 8000, shrink=False)]
 
 
 RULE = ("stage late-handshake-behind-a-complete-connection: two TLS connections, one complete before the other's (fragmented or plain) handshake, "
